@@ -50,6 +50,10 @@ def judge(c: I.Case, vb: VB, part: str) -> str:
         return "ok"
     tag = c03.sig_tag(o, c.data)
     for kind, what in d:
+        if kind == "flag:C" and o.mn in ("ADC", "SBC", "ADCL", "SBCL") and "source-all-ones-with-carry-in" not in o.ref.notes:
+            # the recorded carry finding needs a source byte of all ones together with a carry-in; a wrong carry for any other
+            # input is a different defect and gets its own signature
+            kind = "flag:C/other-inputs"
         vb.add(f"C04/{kind}/{tag}", f"[{part}] {c.data.hex()} '{o.text}' BA={c.regs.get('BA', 0):#x} I={c.regs.get('I', 0)} "
                                     f"F={c.regs.get('F', 0)}: {what}", c.witness)
     return "bad"
